@@ -118,3 +118,19 @@ CLAIMED.update({
             "document); the assurance is in the correspondence: bytes at PROTOCOL.md offsets = published record, C result = Rust result = model on every file, C struct layout = header.",
             FILE_NOTE, "DESIGN.md section 6, C17"),
 })
+
+POLL_NOTE = ("Trusted: Coq kernel (+ the four Reals/Flocq axioms for the half-width statements); the fake chronyd (chrony-candm's own (de)serialisers) on the real socket path inside "
+             "unshare -m + tmpfs on /run; the virtual clock seen by the poller thread only; pacing the loop with filler messages; the PHC sysfs read modelled by its outcome.")
+
+CLAIMED.update({
+    "C12": ("Coq proof (half-width monotone in the monotonic reading and antitone in the as-of instant, from the Flocq monotonicity of C05) + measured order of clock reads "
+            "(generated Current_C12.v must prove measured = modelled) + correspondence of now() under delayed reads and of the poller's as-of under slow answers",
+            "Machine-checked: C12_as_of_is_pre_query_reading, C12_earlier_as_of_is_pessimistic, C12_client_delay_is_pessimistic, C12_poller_order/C12_client_order "
+            "(the orders the theorems assume), and on every run that the running code reads the monotonic clock before the request reaches chronyd and the realtime clock before "
+            "the monotonic one. The link to containment (C01) is in World/Containment.v.",
+            POLL_NOTE, "DESIGN.md section 6, C12"),
+    "C13": ("Coq proof (induction over poll histories with the declarative state 'reception instant of the last tracking reply') + correspondence of the real polling loop with "
+            "the real chrony UDS client against a scripted fake chronyd under a virtual clock, silences aimed at 5 s -/+ 1 ns",
+            "Machine-checked: C13_silence_class, C13_history, C13_startup_unknown_class, C13_phc_unreadable_is_not_a_measurement, C13_phc_added_iff_refid_matches.",
+            POLL_NOTE, "DESIGN.md section 6, C13"),
+})
